@@ -18,6 +18,30 @@ func c12(c *Ctx) {
 	// primary-key and UNIQUE probes compare encoded keys: two TIMESTAMP values that are equal as stored (microseconds)
 	// must have equal keys, so every Timestamp value enters the engine truncated (analysis shared with C15.4)
 	c15TimestampNormalised(c, "C12.11/timestamp-key-equals-stored-value")
+	// ALTER TABLE ADD COLUMN does not rewrite the rows committed before it: they read the new column as NULL whatever
+	// its DEFAULT, so a column declared NOT NULL is never added to an existing table
+	if f := c.mustFn("C12.12/added-column-is-nullable", "embedded/sql.(*Table).newColumn"); f != nil {
+		r := "C12.12/added-column-is-nullable"
+		notNull := whenCond(true, func(a string) bool { return hasFieldSuffix(a, "notNull") })
+		var edges []cfgEdge
+		for _, b := range f.Blocks {
+			for si := range b.Succs {
+				if notNull(b, si) {
+					edges = append(edges, cfgEdge{b, si})
+				}
+			}
+		}
+		if len(edges) == 0 {
+			c.fail(r, fnName(f)+":not-null-refused", c.pos(f.Pos()), "newColumn no longer looks at the NOT NULL flag of the column it adds")
+		} else {
+			q := &pathQ{fn: f, fromEdges: edges, to: successReturn}
+			if w := q.bypass(); w != nil {
+				c.fail(r, fnName(f)+":not-null-refused", c.pos(w[len(w)-1].Pos()), "a NOT NULL column can be added to a table that already holds rows (they read it as NULL): "+c.witnessStr(w))
+			} else {
+				c.ok(r, fnName(f)+":not-null-refused", c.pos(f.Pos()), "no successful return is reachable once spec.notNull is true")
+			}
+		}
+	}
 	sink := callTo(sqlTxT + "doUpsert")
 	check := callTo("embedded/sql.checkConstraints")
 	callers := map[*ssa.Function]bool{}
